@@ -602,8 +602,12 @@ impl RADAU {
                             hhfac = 0.8 * qnewt.powf(exponent);
                             h *= hhfac;
                             steps.rejected += 1;
+                            reject = true;
                             last = false;
-                            break 'newton;
+                            // Restart the step with the reduced size; the unconverged
+                            // iterate must not be used as a step result
+                            call_decomp = true;
+                            continue 'main;
                         }
                     } else {
                         // Unexpected step rejection - continue with reduced step
